@@ -14,6 +14,8 @@ import PyamgV.Proofs.ExtC11RefineDirect
 import PyamgV.Proofs.ExtC11RefineClassicalRows
 import PyamgV.Proofs.ExtC11RefineMod
 import PyamgV.Proofs.ExtC11RefineAir
+import PyamgV.Proofs.ExtGlueApi
+import PyamgV.Proofs.ExtGlueTheta
 import Mathlib.Algebra.Order.Ring.Rat
 import Mathlib.Algebra.Field.Rat
 
@@ -181,6 +183,64 @@ restate air_pass1_row_pointer_spec := PyamgV.C11X.airPass1_spec
 the C-points in the order of `Cpts`, each of the length pass 1 reserved -/
 restate air_pass2_rows_are_air_rows := PyamgV.C11X.airPass2_rows
 
+/-! ## extension E30: the SciPy glue between the kernels, and the public functions end to end
+
+`Glue.*` (Model/ExtGlue.lean) are executable models of `eliminate_zeros`, `sort_indices`,
+`sum_duplicates`, `data[:] = 1`, `abs` / `scale_rows_by_largest_entry`, `C.multiply(A)` (both SciPy
+branches) on the CSR arrays, compared array for array with SciPy on every run (`ext_glue_*`);
+`Glue.row A i` is row `i` as (column, value) list (`= C11M.rowOf A i`), `Glue.dval r j` the sum of the
+stored entries of column `j` (the dense meaning).  `Glue.apiClassical` / `Glue.apiDirect` compose them
+with the kernels' array models exactly as `classical_interpolation` / `direct_interpolation`
+(theta = None) do (`ext_c11_api_classical`, `ext_c11_api_direct`). -/
+
+/-- every glue model builds its result row by row; row `i` of `ofRows n rows` is `rows i` -/
+restate glue_of_rows_row := PyamgV.Glue.ofRows_row
+/-- `eliminate_zeros`: the stored non-zeros of every row, in storage order -/
+restate glue_eliminate_zeros_row := PyamgV.Glue.eliminateZeros_row
+restate glue_eliminate_zeros_dense := PyamgV.Glue.eliminateZeros_dense
+restate glue_eliminate_zeros_no_stored_zero := PyamgV.Glue.eliminateZeros_nz
+/-- `sort_indices`: a permutation of every row into ascending columns, same matrix -/
+restate glue_sort_indices_spec := PyamgV.Glue.sortIndices_spec
+restate glue_sort_stable := PyamgV.Glue.sortRow_stable
+restate glue_sort_sorted_row_unchanged := PyamgV.Glue.sortRow_of_sorted
+/-- `sum_duplicates`: canonical result, same matrix -/
+restate glue_sum_duplicates_spec := PyamgV.Glue.sumDuplicates_spec
+restate glue_sum_duplicates_canonical_unchanged := PyamgV.Glue.sumDuplicates_canonical_row
+/-- `csr_has_canonical_format` (the test `multiply` dispatches on) -/
+restate glue_canonical_iff := PyamgV.Glue.isCanonical_iff
+/-- `C.multiply(A)`, canonical branch (two-pointer merge) = entrywise product of the rows -/
+restate glue_multiply_canonical_row := PyamgV.Glue.multiply_row_canonical
+/-- `C.multiply(A)`, either branch: the dense meaning is the entrywise product -/
+restate glue_multiply_dense := PyamgV.Glue.multiply_dense
+/-- tail of `classical_strength_of_connection` (`abs`, `scale_rows_by_largest_entry`, `eliminate_zeros`):
+exactly the kernel's non-zero entries, in order -/
+restate glue_strength_tail_row := PyamgV.Glue.strengthTail_row
+/-- the matrix `classical_interpolation` hands to pass 1 / pass 2 (copy, eliminate_zeros,
+[remove_strong_FF_connections], eliminate_zeros, data = 1, multiply(A)) -/
+restate api_strength_row := PyamgV.Glue.apiStrength_row
+/-- … is the hypothesis `hS'` of `modified_kernels_end_to_end` -/
+restate api_strength_discharges_hS' := PyamgV.Glue.apiStrength_discharges_hS'
+/-- **`classical_interpolation(A, C, splitting, modified=True)` as one model vs `classicalModP`** -/
+restate api_classical_modified_end_to_end := PyamgV.Glue.apiClassical_modified_refines
+/-- **`classical_interpolation(A, C, splitting, modified=False)` as one model vs `classicalP`** -/
+restate api_classical_unmodified_end_to_end := PyamgV.Glue.apiClassical_unmodified_refines
+/-- **`direct_interpolation(A, C, splitting)` as one model vs `directP`** -/
+restate api_direct_end_to_end := PyamgV.Glue.apiDirect_refines
+
+/-! ### `theta` given: the strength matrix is recomputed (kernel + its SciPy tail), no hypothesis on `C` left -/
+
+/-- `classical_strength_of_connection(A, theta, norm)` (model `Glue.apiSoc`), row `i`: the kernel's
+entries with non-zero value, in storage order, positive values -/
+restate api_soc_row := PyamgV.Glue.apiSoc_row
+/-- it satisfies the hypotheses of the `api_*_end_to_end` theorems (canonical, columns below `n`,
+inside the non-zero pattern of `A`) -/
+restate api_soc_satisfies_hypotheses := PyamgV.Glue.apiSoc_hyps
+/-- the strength rows the three theorems below are about: the kernel's rule on row `i` of `A`, zeros dropped -/
+restate api_soc_strength_row := PyamgV.Glue.apiSoc_strength_row
+restate api_classical_theta_modified_end_to_end := PyamgV.Glue.apiClassicalTheta_modified_refines
+restate api_classical_theta_unmodified_end_to_end := PyamgV.Glue.apiClassicalTheta_unmodified_refines
+restate api_direct_theta_end_to_end := PyamgV.Glue.apiDirectTheta_refines
+
 /-! ## non-vacuity
 
 1-D Neumann Laplacian on 5 points (zero row sums), C = {0, 4}: the F-point 1 has the strong
@@ -230,6 +290,31 @@ example : C11X.directPOptRow (C11M.isC split5) (C11M.rowOf A5c) (C11M.rowOf S5c)
   decide +kernel
 example : C11X.rowAt (0 : Int) (0 : Rat) (C11M.onePoint 5 S5c split5).1 (C11M.onePoint 5 S5c split5).2.1
     (C11M.onePoint 5 S5c split5).2.2 3 = [(1, 1)] := by decide +kernel
+/-- E30: a strength matrix as a user would pass it (arbitrary values, a stored zero on the diagonal
+of row 1): the hypotheses of the `api_*_end_to_end` theorems hold and the composed models return the
+rows of the proof-side operators -/
+def C5g : N.Csr := ⟨5, #[0, 1, 4, 6, 8, 9], #[1, 0, 1, 2, 1, 3, 2, 4, 3], #[3, 2, 0, 5, 1, 1, 4, 4, 7]⟩
+example : Glue.isCanonical A5c = true ∧ Glue.isCanonical C5g = true := by decide +kernel
+example : ∀ i < C5g.n, ∀ cv ∈ Glue.row C5g i, cv.1 < C5g.n := by decide +kernel
+example : ∀ i < C5g.n, ∀ cv ∈ Glue.row C5g i, cv.2 ≠ 0 → C11M.entry A5c i cv.1 ≠ 0 := by decide +kernel
+example : (List.range 5).map (Glue.row (Glue.strengthCsr A5c C5g)) = (List.range 5).map (Glue.row S5c) := by
+  decide +kernel
+example : Glue.row (Glue.apiStrength true A5c C5g split5) 1 = [(0, -1)] ∧
+    Glue.row (Glue.apiStrength false A5c C5g split5) 1 = [(0, -1), (2, -1)] := by decide +kernel
+example : C11X.rowAt (-1 : Int) (none : Option Rat) (Glue.apiClassical (1 / 1000000) true A5c C5g split5).1
+    (Glue.apiClassical (1 / 1000000) true A5c C5g split5).2.1
+    (Glue.apiClassical (1 / 1000000) true A5c C5g split5).2.2 1 = [(0, some 1)] := by decide +kernel
+example : Glue.row (Glue.sumDuplicates ⟨2, #[0, 3, 4], #[1, 0, 1, 0], #[2, 5, -2, 7]⟩) 0 = [(0, 5), (1, 0)] := by
+  decide +kernel
+example : Glue.row (Glue.multiply ⟨1, #[0, 3], #[1, 0, 1], #[2, 5, 1]⟩ ⟨1, #[0, 2], #[0, 1], #[3, 4]⟩) 0
+    = [(0, 15), (1, 12)] := by decide +kernel
+/-- E30, theta given (theta = 1/4, norm 'abs', tiny = 2^-1022 replaced by 1/2^20 here): all strength is recomputed -/
+example : ∀ i < A5c.n, ∀ cv ∈ Glue.row A5c i, cv.1 < A5c.n := by decide +kernel
+example : C11X.rowAt (-1 : Int) (none : Option Rat)
+    (Glue.apiClassicalTheta (1 / 1000000) true (1 / 1048576) (1 / 4) true A5c split5).1
+    (Glue.apiClassicalTheta (1 / 1000000) true (1 / 1048576) (1 / 4) true A5c split5).2.1
+    (Glue.apiClassicalTheta (1 / 1000000) true (1 / 1048576) (1 / 4) true A5c split5).2.2 1 = [(0, some 1)] := by
+  decide +kernel
 end example5
 
 end PyamgV.Props.C11
